@@ -25,7 +25,7 @@ ASSUMPTIONS = ["os.path.splitext defines 'name without last extension'", "Memory
 MONITORS = ["asset_lookup", "exists", "repeat_read", "pack_banner"]
 REQUIRED = ["directory_path_not_normalized", "entry_matches_two_kinds", "multi_dot_name", "specified_other_case", "specified_in_subdir_other_case", "specified_missing_with_pattern_match",
             "specified_missing_subdir_with_pattern_match", "specified_missing_no_match", "pattern_hit", "near_miss_only",
-            "no_match_none", "pack_banner_inside", "pack_banner_beside", "pack_banner_none", "pack_sibling_prefix_name",
+            "no_match_none", "pack_banner_inside", "pack_banner_beside", "pack_banner_none", "pack_sibling_prefix_name", "pack_path_is_a_single_relative_component",
             "native", "memory"]
 
 IMAGE = [".png", ".jpg", ".jpeg", ".gif", ".bmp"]
@@ -127,6 +127,8 @@ def cases(ctx):
                 props[k] = swapcase_name(rng, rng.choice(sorted(files)))
             elif r < 0.62 and "gfx" in sub:
                 props[k] = "gfx/" + swapcase_name(rng, rng.choice(sorted(sub["gfx"]["files"])))
+            elif r < 0.72 and "gfx" in sub:
+                props[k] = "gfx/" + rng.choice(["missing.png", "nothere.ogg"])  # existing sub-directory, missing file
             elif r < 0.8:
                 props[k] = rng.choice(["missing.png", "nothere.ogg", "Banner2.png"])
             elif r < 0.92:
@@ -152,7 +154,9 @@ def gen_pack(rng):
     dirs = {pack: {"dirs": {"Song": {"dirs": {}, "files": {"s.sm": "clean"}}}, "files": inside}}
     if rng.random() < 0.3:
         dirs[pack + " 2ndMIX"] = {"dirs": {}, "files": {}}
-    return {"kind": "pack", "tree": {"dirs": dirs, "files": beside}, "pack": pack, "fs": rng.choice(["native", "memory"])}
+    fs_ = rng.choice(["native", "memory", "memory"])
+    return {"kind": "pack", "tree": {"dirs": dirs, "files": beside}, "pack": pack, "fs": fs_,
+            "relative": fs_ == "memory" and rng.random() < 0.5, "spelling": rng.choice(["{}", "./{}", "{}/"])}
 
 
 def check(ctx, case):
@@ -266,11 +270,31 @@ def check_dir(ctx, case, t):
             ctx.violation(f"asset:{k}:answer-depends-on-the-order-of-questions", dict(detail, asked_first=got, asked_in_reverse_order=rev.get(k)))
 
 
+class _Rooted:
+    """A Tree seen through a sub-filesystem rooted at the tree's root (paths become relative to it)."""
+
+    def __init__(self, tree, sub):
+        self.kind, self.fs, self.root, self.join = "memory", sub, "", tree.join
+        import fs.path
+
+        self._norm = fs.path.normpath
+
+    def norm(self, p):
+        return None if p is None else self._norm(p).lstrip("/")
+
+
 def check_pack(ctx, case, t):
     from simfile.dir import SimfilePack
 
     pack = case["pack"]
     pdir = t.join(t.root, pack)
+    if case.get("relative"):
+        # the same pack seen from a filesystem rooted at its parent: the pack path is one relative component
+        from fs.subfs import SubFS
+
+        t = _Rooted(t, SubFS(t.fs, t.root))
+        pdir = case["spelling"].format(pack)
+        ctx.feat("pack_path_is_a_single_relative_component")
     inside = list(case["tree"]["dirs"][pack]["files"])
     siblings = list(case["tree"]["files"]) + [d for d in case["tree"]["dirs"] if d != pack]
     ctx.begin(case, nontrivial=bool(inside or siblings))
